@@ -259,6 +259,24 @@ def check_identity(case, ctx):
             p.id = "same-id"
             p.name = case["name"]
     variants["same-id-and-name"] = guarded_job(m, job, "same id", objs)
+    # the model object itself duplicated: a deep copy and a pickle round trip (what multiprocessing workers and on-disk caches hold) are
+    # models with the same construction parameters - "object identity" is not one of the things a result may depend on
+    import copy
+    import pickle
+
+    variants["deep-copied-model"] = guarded_job(copy.deepcopy(mk_model(cfg)), job, "deep-copied model")
+    variants["shallow-copied-model"] = guarded_job(copy.copy(mk_model(cfg)), job, "copied model")
+    try:
+        blob = pickle.dumps(mk_model(cfg))
+    except Exception:  # noqa: BLE001 - a model that cannot be pickled (its gamma callback decides that) is not asserted to be
+        blob = None
+        ctx.label("model-not-picklable")
+    if blob is not None:
+        try:
+            clone = pickle.loads(blob)
+        except Exception as e:  # noqa: BLE001
+            raise Violation("model-pickle-roundtrip-raised", f"{cfg['kind']}: pickle.loads(pickle.dumps(model)) raised {e!r}") from None
+        variants["unpickled-model"] = guarded_job(clone, job, "unpickled model")
     m = mk_model(cfg)
     objs = mk_teams(m, job["teams"])
     variants["deepcopied"] = guarded_job(m, job, "deepcopy", copy.deepcopy(objs))
